@@ -66,6 +66,9 @@ def expr_family(tier):
                     out.append(f"a {o1} b {o2} c {o3} d")
     out += ["a", "~a", "!a", "~(~a)", "(a)", "((a | b))", "a & b & c & d", "a | b | c | d", "a ^ b ^ c ^ d", "a ~^ b ~^ c",
             "a ? b : c", "a & b ? c : d", "a ? b | c : c & d", "a | b ? c ^ d : ~a", "(a ? b : c) & d", "a ? (b ? c : d) : d", "~a ? b : ~c",
+            # conditionals with a constant arm (all four forms), alone and nested inside other operators
+            "a ? b : 1'b1", "a ? b : 1'b0", "a ? 1'b1 : b", "a ? 1'b0 : b", "a ? b : 1'h1", "(a ? b : 1'b1) & c", "~(a ? 1'b0 : b) | c", "a ? (b ? c : 1'b1) : 1'b0", "a & b ? 1'b1 : c ^ d",
+            "a ? b : a", "a ? a : b", "a ? ~a : b",
             "1'b0", "1'b1", "1'h0", "1'h1", "a & 1'b1", "a | 1'b0", "a ^ 1'b1 ^ b", "1'b0 ? a : b", "a ? 1'b1 : 1'b0", "a & b | c & d", "a | b & c | d", "a ^ b & c ^ d", "a | b ^ c & d"]
     seen, res = set(), []
     for e in out:
